@@ -313,6 +313,10 @@ class Ctx:
                 self.coverage[k] = v
 
     def write_evidence(self):
+        if os.path.realpath(REPO) != "/repo":
+            # a run against another tree (a mutant, an older commit) is not evidence about /repo
+            self.log("VERIF_REPO=%s: evidence file not written" % REPO)
+            return
         cov = dict(self.coverage)
         cov.setdefault("tlc_runs", self.tlc_runs)
         if self.tlc_runs:
